@@ -26,6 +26,8 @@ pub enum PeerOp {
     Datagram(Vec<u8>),
     /// wait until nothing else is enabled
     Barrier,
+    /// MAX_STREAMS: the h3 end may open that many more bidirectional streams
+    GrantBidi(u64),
     /// raise application signal k
     Signal(usize),
     /// run a closure-free hook identified by number (interpreted by the property)
@@ -101,6 +103,14 @@ impl Actor for RawPeer {
             PeerOp::Timeout => net.timeout(side.other()),
             PeerOp::Datagram(b) => net.raw_datagram(side, &b),
             PeerOp::Barrier => {}
+            PeerOp::GrantBidi(n) => {
+                let mut g = net.lock();
+                let e = &mut g.ends[side.other().idx()];
+                e.stream_credit[0] = e.stream_credit[0].saturating_add(n);
+                for w in e.open_wakers[0].drain(..) {
+                    w.wake();
+                }
+            }
             PeerOp::Signal(k) => {
                 if let Some(s) = self.signals.get(k) {
                     s.raise();
